@@ -30,10 +30,10 @@ CHECKS = {
    text='Brute-force fold modelled in product order with its accumulators and proved equal to the declarative optimum of all nine printed statistics (TLC); real -bf runs compared line by line.',
    tech='TLC model checking (BFEqDef) + replay of -bf runs'),
  'C08': dict(cat='model_checking', sec='6 C08',
-   text='MPGen.tla: the generator as a state machine; with tiny counts TLC runs it through EVERY random draw and proves GenWellFormed/GenRoundTrip; the real Generator is run on every legal argument vector of the TLC-enumerated families x seeds and each written file is a trace validated by Trace_Gen.tla (specification reader on the bytes, then the guards of the generator actions clause by clause: counts, numbering, list lengths/distinct/in range, Spread of quotas/targets/projects per lecturer, tie probability 0/1 laws, second-side lists iff two-sided, parameter block); "every length can occur" decided statistically on >= 200 lists. The spreading laws (sum, differ by at most one, larger shares first, monotone in the total) are additionally PROVED for unbounded n and totals with TLAPS (spec/unbounded/SpreadProofs.tla, 113 obligations) and create_quotas / create_project_lecturers are compared with Spread / SpreadAssign on every (n, total) of MC_Spread.tla.',
+   text='MPGen.tla: the generator as a state machine; with tiny counts TLC runs it through EVERY random draw and proves GenWellFormed/GenRoundTrip; the real Generator is run on every legal argument vector of the TLC-enumerated families x seeds and each written file is a trace validated by Trace_Gen.tla (specification reader on the bytes, then the guards of the generator actions clause by clause: counts, numbering, list lengths/distinct/in range, Spread of quotas/targets/projects per lecturer, tie probability 0/1 laws, second-side lists iff two-sided, parameter block); "every length can occur" decided statistically on >= 200 lists. The spreading laws (sum, differ by at most one, larger shares first, monotone in the total) are additionally PROVED for unbounded n and totals with TLAPS (spec/unbounded/SpreadProofs.tla, 113 obligations) and create_quotas / create_project_lecturers are compared with Spread / SpreadAssign on every (n, total) of MC_Spread.tla. One generator run in five is judged inside a HISTORY: another accepted run precedes it in the same process and output directory, and its files are compared byte for byte with reference runs in fresh locations; families include 30 rankers on a second-side list and first-side lists of 28-30 entries.',
    tech='TLC model checking of MPGen over all draws + trace validation (Trace_Gen.tla) of real generator output + TLAPS proofs of the spreading laws'),
  'C09': dict(cat='model_checking', sec='6 C09',
-   text='GenRoundTrip model-checked; real Generator output (all four types, TLC-enumerated legal vectors, seeds) is fed to the real Solver with the documented flags, real CBC and -bf; every run is a trace validated by Trace_Pipe.tla which re-reads the bytes with the specification, takes the MPSolver actions and judges loading, status, validity, stability, optimum values, statistics and all brute-force lines.',
+   text='GenRoundTrip model-checked; real Generator output (all four types, TLC-enumerated legal vectors, seeds) is fed to the real Solver with the documented flags, real CBC and -bf; every run is a trace validated by Trace_Pipe.tla which re-reads the bytes with the specification, takes the MPSolver actions and judges loading, status, validity, stability, optimum values, statistics and all brute-force lines. Files too large to solve inside TLC (lists of 28-30 entries, 30 rankers) are validated as load-only traces (Construct only; the loaded instance equals what the specification reads from the bytes).',
    tech='trace validation (Trace_Pipe.tla) of real generator->solver runs with real CBC'),
  'C12': dict(cat='model_checking', sec='6 C12',
    text='SecondSideOK model-checked over all draws (MPGen.tla); every generated two-sided file validated by Trace_Gen.tla clause second_side_exactly_rankers (each second-side agent lists exactly the first-side agents ranking it / one of its projects, once).',
@@ -45,7 +45,7 @@ CHECKS = {
    text='With no criterion every valid matching is optimal; the stand-in returns each in turn and every field and listing of the short and long result text is compared with the statistics defined in MPDefs.tla.',
    tech='TLC-computed reports + replay through get_results_short/long for every valid matching'),
  'C13': dict(cat='model_checking', sec='6 C13',
-   text='TLA+ writer/reader tie automata model-checked exhaustively (all lists up to length 10/12, all 2^n indicator vectors); every TLC behaviour replayed into create_string_pref, the reader and Solver file loading (2/3-agent, first/second side). Exhaustive for the stated n; plus three-digit entries, sampled decision vectors for lists of 25 and 60 entries, and a finite abstraction of both automata (spec/unbounded/TiesAbs.tla, 6 abstract states, all list lengths) that every concrete step is checked to refine (action properties WriterBridge/ReaderBridge).',
+   text='TLA+ writer/reader tie automata model-checked exhaustively (all lists up to length 10/12, all 2^n indicator vectors); every TLC behaviour replayed into create_string_pref, the reader and Solver file loading (2/3-agent, first/second side). Exhaustive for the stated n; plus three-digit entries, sampled decision vectors for lists of 25 and 60 entries, and a finite abstraction of both automata (spec/unbounded/TiesAbs.tla, 6 abstract states, all list lengths) that every concrete step is checked to refine (action properties WriterBridge/ReaderBridge). The decisions are also injected at the RNG boundary and taken through the real create_ties_indicators into the writer, so that whatever container and dtype the generator itself hands over is what is written.',
    tech='TLC exhaustive model checking of MC_Ties.tla + finite abstraction for all lengths + replay of all exported behaviours into the implementation'),
  'C14': dict(cat='fault_enumeration', sec='6 C14',
    text='MC_Faults.tla enumerates, per criteria sequence (1-7 underlying solves incl. per-rank solves), every placement of every back-end failure kind, transient/persistent, all pairs, limit set/unset, duration patterns, and proves the report rule (NoMatchingUnlessAllProven, ShowsFirstBadOrTimeout) on the specification; every plan is replayed into the real code with outcomes injected at COIN_CMD.actualSolve under three leftover-value policies (and once more after a healthy solve on the same object) and a virtual clock in microseconds, over get_results/_short/_long. MC_Runs.tla extends the enumeration to histories of two runs on one object (earlier run healthy / one fault / one slow solve under its own limit, then every single fault in the later run; same invariants on both runs), replayed with the getters judged after each run. Unbounded: TLAPS proves (spec/unbounded/FaultProofs.tla over MPSolverAbs.tla, 32 obligations) that whatever is presented in full was proven optimal for every instance, criteria list and plan; TLC checks that the real actions refine the abstract ones.',
@@ -54,7 +54,7 @@ CHECKS = {
    text='The parser mechanism (required/inapplicable tables, defaults, bound checks with explicit "no value") is proved to refine the declarative acceptance rule on every legal vector and every single-fault perturbation (MC_Gen.tla: ParserOK, FamilySound, RejectBeforeWrite, AcceptWritesAll); every vector is replayed into the real Generator in a fresh location: accepted -> all files, rejected -> SystemExit(2) and nothing written.',
    tech='TLC model checking of MC_Gen + replay of every argument vector into Generator'),
  'C17': dict(cat='model_checking', sec='6 C17',
-   text='Exact rational model (MC_Skew.tla): positive, sum one, arithmetic progression, last = s x first, single agent -> <<1>> for all n <= 12/24 and s = p/q; create_linear_distribution compared with the exported rationals within 1e-9 and the laws re-checked on the floats; the weights that reach the drawing routine (numpy.random.choice without replacement) in the second of two real generator runs of one process are compared with the rationals too (Draw / UsedAreThisRuns). TLC adds exact arithmetic; numeric tolerance stated.',
+   text='Exact rational model (MC_Skew.tla): positive, sum one, arithmetic progression, last = s x first, single agent -> <<1>> for all n <= 12/24 and s = p/q; create_linear_distribution compared with the exported rationals within 1e-9 and the laws re-checked on the floats; the weights that reach the drawing routine (numpy.random.choice without replacement) in the second of two real generator runs of one process are compared with the rationals too (Draw / UsedAreThisRuns). TLC adds exact arithmetic; numeric tolerance stated. The statement about first draws is decided statistically on real generator output: 6000 lists per shape (complete, one-entry and mixed lengths), sorted first-choice frequencies against the exported weights, tolerance 0.04 (> 6 sigma), fixed seeds.',
    tech='TLC exhaustive evaluation of the rational model + numeric comparison with the implementation'),
  'C18': dict(cat='model_checking', sec='6 C18',
    text='MC_Hist.tla: all call sequences over {solve, 4 getters, a call on another Solver object of the same process} starting with solve; getters read-only (action property), re-solve reproduces status, values and admissible set; every history replayed on one real Solver object with different tie-breaking per solve (stand-in) and real CBC on a sample; byte-for-byte text stability between solves, same status/values across solves, valid matching, get_debug rows consistent.',
